@@ -32,7 +32,7 @@ void vt_end(void) { if (tf) { fputs("}\n", tf); fflush(tf); } pthread_mutex_unlo
 
 // ---------------- entropy ----------------
 typedef struct {
-	uint64_t s; long draws, bytes, fail_at, pos, nfail, high; int failed, log, nforced, iforced; uint8_t forced[8][32]; const char *tag;
+	uint64_t s; long draws, bytes, fail_at, pos, nfail, high, fail_from; int fail_errno; int failed, log, nforced, iforced; uint8_t forced[8][32]; const char *tag;
 	ENT_DRAW ring[256];
 } ENT;
 static __thread ENT ent = { .s = 0x9e3779b97f4a7c15ULL };
@@ -50,6 +50,7 @@ long ent_failures(void) { return ent.nfail; }
 void ent_log(int on) { ent.log = on; }
 void ent_tag(const char *t) { ent.tag = t; }
 void ent_high_for(long k) { ent.high = k; }
+void ent_fail_from(long i, int err) { ent.fail_from = i; ent.fail_errno = err; }
 void ent_push32(const uint8_t v[32]) { if (ent.nforced < 8) memcpy(ent.forced[ent.nforced++], v, 32); }
 const ENT_DRAW *ent_get(long i) { if (i < 1 || i > ent.draws || ent.draws - i >= 256) return NULL; return &ent.ring[i & 255]; }
 
@@ -59,10 +60,10 @@ int getentropy(void *buf, size_t len)
 	ent.draws++;
 	ENT_DRAW *d = &ent.ring[ent.draws & 255];
 	d->idx = ent.draws; d->pos = ent.pos; d->len = len; d->failed = 0;
-	if (ent.fail_at && ent.draws == ent.fail_at) {
+	if ((ent.fail_at && ent.draws == ent.fail_at) || (ent.fail_from && ent.draws >= ent.fail_from)) {
 		ent.failed = 1; ent.nfail++; d->failed = 1;
 		if (ent.log) { vt_begin("Draw"); vt_str("who", ent.tag ? ent.tag : "-"); vt_int("i", ent.draws); vt_int("n", (long)len); vt_int("ok", 0); vt_end(); }
-		errno = EIO; return -1;
+		errno = (ent.fail_from && ent.fail_errno) ? ent.fail_errno : EIO; return -1;
 	}
 	vh_fill(&ent.s, (uint8_t *)buf, len);
 	if (ent.high > 0 && len == 32) { memset(buf, 0xFF, len); ent.high--; }
